@@ -234,6 +234,20 @@ fn build_cases(check: &Check) -> Vec<Case> {
     for kinds in &sets {
         for never in [false, true] {
             for async_path in [false, true] {
+                // quick tier: single files run default/sync and never-transcode/async; pairs run the default on
+                // both paths (the pair with six contexts on the async path only) and never-transcode on sync
+                if quick {
+                    let keep = match (kinds.len(), never, async_path) {
+                        (1, false, false) | (1, true, true) => true,
+                        (1, _, _) => false,
+                        (_, false, false) => expected_contexts(kinds, never).len() < 6,
+                        (_, false, true) | (_, true, false) => true,
+                        (_, true, true) => false,
+                    };
+                    if !keep {
+                        continue;
+                    }
+                }
                 let expected = expected_contexts(kinds, never);
                 for mask in 0..(1u32 << expected.len()) {
                     cases.push(Case {
@@ -663,7 +677,7 @@ fn main() {
     check.set_rule(
         "file sets: every single file over SOP class {CT, MR} x transfer syntax {Implicit LE, Explicit LE, RLE Lossless (decodable), encapsulated uncompressed; thorough: + an opaque MPEG2 stub} (x {small 2x2, big 40x32} thorough), \
          pairs (small file, big file): quick 5 chosen pairs, thorough every ordered pair of (class, syntax) in both size orders, thorough + 3 triples; \
-         x {default, --never-transcode} x {synchronous, --concurrency 1}; acceptor policies = EVERY subset of the presentation contexts the tool proposes (each proposes one syntax), \
+         x {default, --never-transcode} x {synchronous, --concurrency 1} (quick: singles default/sync + never/async, pairs default on both paths + never/sync); acceptor policies = EVERY subset of the presentation contexts the tool proposes (each proposes one syntax), \
          which includes 'only Implicit LE of the other SOP class'. One tool process per case; distinct by case id; non-trivial = the association request was received and matched the expected proposal",
     );
     check.assume("vx-ref data set codec/strict parser, the PDU/DIMSE codec and the PackBits encoder of this crate (PS3.5 Annex G) are the trusted base");
